@@ -312,6 +312,9 @@ TRACE_PROGS = [
     b"(K\x01K\x02\x91.", b"K\x012K\x02\x86.", b"(K\x011N.", b"\x80\x04\x95\x02\x00\x00\x00\x00\x00\x00\x00N.",
     b"\x8c\x02os\x8c\x06system\x93\x8c\x02id\x85R.", b"]\x94h\x00h\x00\x86.", b"(im\nC\n.", b"NQ.",
     b"K\x01K\x02K\x03\x87q\x05j\x05\x00\x00\x00\x86.", b"Np0\n0g0\n.", b"}\x8c\x01aK\x01s\x8c\x01bK\x02s.",
+    # long literals (str and bytes, 65 and 300 characters) nested in a list, a dict and a call
+    b"]\x8c\x41" + b"s" * 65 + b"a.", b"}\x8c\x01kX\x2c\x01\x00\x00" + b"t" * 300 + b"s.", b"czqv\nf\n(C\x50" + b"b" * 80 + b"tR.",
+    b"]\x8c\x40" + b"s" * 64 + b"a\x8c\x41" + b"u" * 65 + b"a.",
 ]
 
 
